@@ -4,6 +4,8 @@ import (
 	"encoding/hex"
 	"errors"
 	"fmt"
+	"github.com/koestler/go-victron/vedirectapi"
+	"math"
 	"sort"
 	"strconv"
 	"strings"
@@ -23,8 +25,8 @@ func b01(b bool) string {
 }
 
 type enumF struct {
-	name string
-	f    veconst.EnumFactory
+	name  string
+	f     veconst.EnumFactory
 	typed func(b uint8) (int, string, error)
 }
 
@@ -441,6 +443,12 @@ func suiteC15(rng *Rng, thorough bool, s *Sink) {
 			continue
 		}
 		reps := 8
+		type renderedVal struct {
+			val   vedirectapi.FieldListValue
+			first string
+			op    string
+		}
+		var rendered []renderedVal
 		for ri, raw := range raws {
 			if fl.name == "InverterWarningReasons" && !thorough && ri%5 != 0 && ri > 2000 {
 				continue
@@ -479,9 +487,49 @@ func suiteC15(rng *Rng, thorough bool, s *Sink) {
 				s.Violate(op, hexS(first), "String() is not name=CommaString()")
 			}
 			s.Line("render", op, hexS(first))
+			if len(want) >= 2 && len(rendered) < 48 {
+				rendered = append(rendered, renderedVal{val, first, op})
+			}
+		}
+		// "identical every time it is produced" also when values are rendered from several goroutines at once
+		// (register values are handed to the caller's handler and commonly rendered on other goroutines)
+		if len(rendered) > 1 {
+			rounds := 400
+			if thorough {
+				rounds = 20000
+			}
+			type bad struct {
+				i   int
+				got string
+			}
+			const workers = 8
+			res := make(chan *bad, workers)
+			for g := 0; g < workers; g++ {
+				go func(g int) {
+					for r := 0; r < rounds; r++ {
+						for j := range rendered {
+							i := (j*(2*g+1) + r) % len(rendered)
+							if got := rendered[i].val.CommaString(); got != rendered[i].first {
+								res <- &bad{i, got}
+								return
+							}
+						}
+					}
+					res <- nil
+				}(g)
+			}
+			concurrentRenderings += workers * rounds * len(rendered)
+			for g := 0; g < workers; g++ {
+				if b := <-res; b != nil {
+					rv := rendered[b.i]
+					s.Violate(rv.op, hexS(b.got), fmt.Sprintf("%s: rendered concurrently with other values, the value renders as %q; alone it renders as %q", fl.name, b.got, rv.first))
+				}
+			}
 		}
 	}
 }
+
+var concurrentRenderings int
 
 // namesExactly: `rendering` is the ", "-join of some permutation of `want` (names may contain ", " themselves)
 func namesExactly(rendering string, want []string) bool {
@@ -685,7 +733,7 @@ func predOf(p string) func(r veregister.Register) bool {
 		return func(r veregister.Register) bool { return int(r.Type()) == k }
 	case "sortpar":
 		k, _ := strconv.Atoi(parts[1])
-		return func(r veregister.Register) bool { return r.Sort()%2 == k }
+		return func(r veregister.Register) bool { return ((r.Sort()%2)+2)%2 == k }
 	case "addrlt":
 		a, _ := strconv.Atoi(parts[1])
 		return func(r veregister.Register) bool { return int(r.Address()) < a }
@@ -701,13 +749,78 @@ func predOf(p string) func(r veregister.Register) bool {
 
 // runRegOps: executes the ops on a real RegisterList and, in parallel, on four plain slices (the reference the
 // property names); returns the rendering and any divergence from the reference.
+// synthItem: "s=<kind>.<sort>.<name>" - a register with an arbitrary name and sort key (address 7)
+func synthItem(spec string) poolItem {
+	p := strings.SplitN(spec, ".", 3)
+	kind, _ := strconv.Atoi(p[0])
+	srt, _ := strconv.ParseInt(p[1], 10, 64)
+	switch kind {
+	case 1:
+		r := veregister.VerifNumber(p[2], int(srt), 7)
+		return poolItem{kind: 1, n: &r}
+	case 2:
+		r := veregister.VerifText(p[2], int(srt), 7)
+		return poolItem{kind: 2, t: &r}
+	case 3:
+		r := veregister.VerifEnum(p[2], int(srt), 7)
+		return poolItem{kind: 3, e: &r}
+	}
+	r := veregister.VerifFieldList(p[2], int(srt), 7)
+	return poolItem{kind: 4, f: &r}
+}
+
+type regSnapshot struct {
+	rl  veregister.RegisterList // a by-value copy of the list (as `derived := base` makes one)
+	ref [5][]poolItem
+	at  int
+}
+
+func seqStrings(rl *veregister.RegisterList) [4][]string {
+	var parts [4][]string
+	for _, r := range rl.NumberRegisters {
+		parts[0] = append(parts[0], shortReg(1, r))
+	}
+	for _, r := range rl.TextRegisters {
+		parts[1] = append(parts[1], shortReg(2, r))
+	}
+	for _, r := range rl.EnumRegisters {
+		parts[2] = append(parts[2], shortReg(3, r))
+	}
+	for _, r := range rl.FieldListRegisters {
+		parts[3] = append(parts[3], shortReg(4, r))
+	}
+	return parts
+}
+
 func runRegOps(pool []poolItem, ops []string) (string, []string) {
 	rl := veregister.NewRegisterList()
 	ref := [5][]poolItem{}
 	var viol []string
-	for _, op := range ops {
+	var snaps []regSnapshot
+	for opIdx, op := range ops {
 		kv := strings.SplitN(op, "=", 2)
 		switch kv[0] {
+		case "k":
+			// keep a copy of the list value as it is now; the operations that follow are applied to `rl` only
+			// and must leave what the copy holds untouched
+			sn := regSnapshot{rl: rl, at: opIdx}
+			for k := 1; k <= 4; k++ {
+				sn.ref[k] = append([]poolItem(nil), ref[k]...)
+			}
+			snaps = append(snaps, sn)
+		case "s":
+			it := synthItem(kv[1])
+			switch it.kind {
+			case 1:
+				rl.AppendNumberRegisterStruct(*it.n)
+			case 2:
+				rl.AppendTextRegisterStruct(*it.t)
+			case 3:
+				rl.AppendEnumRegisterStruct(*it.e)
+			case 4:
+				rl.AppendFieldListRegisterStruct(*it.f)
+			}
+			ref[it.kind] = append(ref[it.kind], it)
 		case "a":
 			for _, is := range strings.Split(kv[1], ",") {
 				i, _ := strconv.Atoi(is)
@@ -759,19 +872,7 @@ func runRegOps(pool []poolItem, ops []string) (string, []string) {
 			}
 		}
 	}
-	var parts [4][]string
-	for _, r := range rl.NumberRegisters {
-		parts[0] = append(parts[0], shortReg(1, r))
-	}
-	for _, r := range rl.TextRegisters {
-		parts[1] = append(parts[1], shortReg(2, r))
-	}
-	for _, r := range rl.EnumRegisters {
-		parts[2] = append(parts[2], shortReg(3, r))
-	}
-	for _, r := range rl.FieldListRegisters {
-		parts[3] = append(parts[3], shortReg(4, r))
-	}
+	parts := seqStrings(&rl)
 	var sorted []string
 	for _, r := range rl.GetRegisters() {
 		sorted = append(sorted, shortReg(kindOf(r), r))
@@ -812,6 +913,20 @@ func runRegOps(pool []poolItem, ops []string) (string, []string) {
 		viol = append(viol, fmt.Sprintf("combined view [%s] is not the stable ascending sort [%s]", strings.Join(sorted, ","), strings.Join(wantSorted, ",")))
 	}
 	out := fmt.Sprintf("%d %s|%s|%s|%s %s", rl.Len(), strings.Join(parts[0], ","), strings.Join(parts[1], ","), strings.Join(parts[2], ","), strings.Join(parts[3], ","), strings.Join(sorted, ","))
+	// the kept copies: each still holds what four plain sequences held when it was taken
+	for _, sn := range snaps {
+		sp := seqStrings(&sn.rl)
+		for k := 1; k <= 4; k++ {
+			var want []string
+			for _, it := range sn.ref[k] {
+				want = append(want, shortReg(k, it.reg()))
+			}
+			if strings.Join(want, ",") != strings.Join(sp[k-1], ",") {
+				viol = append(viol, fmt.Sprintf("a copy of the list taken after operation %d had sequence %d = [%s]; after later operations on the list it reads [%s]", sn.at, k, strings.Join(want, ","), strings.Join(sp[k-1], ",")))
+			}
+		}
+		out += fmt.Sprintf(" K%d %s|%s|%s|%s", sn.rl.Len(), strings.Join(sp[0], ","), strings.Join(sp[1], ","), strings.Join(sp[2], ","), strings.Join(sp[3], ","))
+	}
 	return out, viol
 }
 
@@ -843,6 +958,7 @@ func suiteC16(rng *Rng, thorough bool, s *Sink) {
 		fmt.Sprintf("a=%d", firstOfKind(2, 0)), fmt.Sprintf("a=%d", firstOfKind(3, 0)), fmt.Sprintf("a=%d", firstOfKind(4, 0)),
 		fmt.Sprintf("a=%d,%d", firstOfKind(1, 3), firstOfKind(2, 1)),
 		"f=kind:1", "f=sortpar:0", "n=ProductId", "n=" + pool[firstOfKind(2, 0)].reg().Name() + ",Nope",
+		"k", "s=1.-9223372036854775808.lo", "s=2.9223372036854775807.hi", "s=1.-1.m",
 	}
 	maxLen := 3
 	if thorough {
@@ -878,7 +994,12 @@ func suiteC16(rng *Rng, thorough bool, s *Sink) {
 		}
 		var seq []string
 		for k := 0; k < l; k++ {
-			switch rng.Intn(10) {
+			switch rng.Intn(12) {
+			case 10:
+				seq = append(seq, "k")
+			case 11:
+				keys := []int64{math.MinInt64, math.MinInt64 + 1, -1 << 62, -1000, -1, 0, 1, 105, 1 << 62, math.MaxInt64 - 1, math.MaxInt64, int64(rng.U64())}
+				seq = append(seq, fmt.Sprintf("s=%d.%d.syn%d", 1+rng.Intn(4), keys[rng.Intn(len(keys))], rng.Intn(5)))
 			case 0:
 				seq = append(seq, "f="+preds[rng.Intn(len(preds))])
 			case 1:
@@ -981,8 +1102,26 @@ func suiteC17(rng *Rng, thorough bool, s *Sink) {
 			m[0] = "zero"
 		}
 	}
-	// product string map
-	orig := stringMapDigest(veproduct.GetStringMap())
+	// product string map. The very first result handed out in this process is mutated as well: a lookup that
+	// builds its table lazily can leak the table itself exactly once.
+	firstMap := veproduct.GetStringMap()
+	orig := stringMapDigest(firstMap)
+	for x := range firstMap {
+		firstMap[x] = ""
+	}
+	delete(firstMap, 0x203)
+	firstMap[0x1234] = "Bogus 123"
+	{
+		got := stringMapDigest(veproduct.GetStringMap())
+		op := "SM mut:first-call:2"
+		s.Line("stringmap", op, got)
+		if got != orig {
+			s.Violate(op, got, "GetStringMap() returns different data after a caller mutated the first result ever handed out")
+		}
+		if p := veproduct.Product(0x204); !p.Exists() || p.String() != "BMV 702" {
+			s.Violate(op, got, "Product methods changed after a caller mutated the first string map handed out")
+		}
+	}
 	for k := 0; k < 4; k++ {
 		m := veproduct.GetStringMap()
 		switch k {
@@ -1017,7 +1156,9 @@ func suiteC17(rng *Rng, thorough bool, s *Sink) {
 	}
 	// enumeration and field-list index-to-name maps
 	for _, e := range enumFs() {
-		orig := intMapStr(e.f.IntToStringMap())
+		first := e.f.IntToStringMap()
+		orig := intMapStr(first)
+		mutInt(e.name, first, 1) // the first result handed out, overwritten in place (size preserved)
 		for k := 0; k < 3; k++ {
 			mutInt(e.name, e.f.IntToStringMap(), k)
 			got := intMapStr(e.f.IntToStringMap())
@@ -1032,7 +1173,9 @@ func suiteC17(rng *Rng, thorough bool, s *Sink) {
 		}
 	}
 	for _, fl := range flFs() {
-		orig := intMapStr(fl.f.IntToStringMap())
+		first := fl.f.IntToStringMap()
+		orig := intMapStr(first)
+		mutInt(fl.name, first, 1)
 		for k := 0; k < 3; k++ {
 			mutInt(fl.name, fl.f.IntToStringMap(), k)
 			got := intMapStr(fl.f.IntToStringMap())
@@ -1046,8 +1189,8 @@ func suiteC17(rng *Rng, thorough bool, s *Sink) {
 		for _, raw := range []uint{0, 1, 0x42, 0x200, 0xFFFF, 0xFFFFFFFF, uint(rng.U64())} {
 			for k := 0; k < 3; k++ {
 				v, _ := fl.f.NewFieldList(raw)
-				origF := fieldsStr(v.Fields())
 				m := v.Fields()
+				origF := fieldsStr(m)
 				switch k {
 				case 0:
 					for f := range m {
@@ -1077,6 +1220,10 @@ func suiteC17(rng *Rng, thorough bool, s *Sink) {
 		others := map[uint16]uint16{0x203: 0x204, 0xA381: 0xA383, 0xA389: 0xA38A, 0xA056: 0xA057, 0xA053: 0xA054, 0xA05F: 0xA060, 0xA231: 0xA232, 0xA2B1: 0xA2B2, 0x0300: 0xA042}
 		first, _ := veregister.GetRegisterListByProduct(veproduct.Product(id))
 		orig := renderList(first)
+		for i := range first.NumberRegisters { // the first list handed out for this product, overwritten in place
+			first.NumberRegisters[i] = first.NumberRegisters[len(first.NumberRegisters)-1]
+		}
+		first.FilterRegister(func(veregister.Register) bool { return false })
 		for k := 0; k < 6; k++ {
 			rl, _ := veregister.GetRegisterListByProduct(veproduct.Product(id))
 			switch k {
